@@ -406,8 +406,9 @@ static void case_escape(vh_rng_t *rng)
       x = t2;
     }
     if (strlen(x) >= 512) {
-      vh_count("escape_skipped_long_text"); /* the writer's 512-octet name buffer: C03 territory */
-      continue;
+      vh_count("escape_text_512_or_longer");
+    } else if (strlen(x) > 255) {
+      vh_count("escape_text_over_255");
     }
     if (ares_dns_record_create(&r2, 1, 0, ARES_OPCODE_QUERY, ARES_RCODE_NOERROR) != ARES_SUCCESS ||
         ares_dns_record_query_add(r2, "example.com", ARES_REC_TYPE_CNAME, ARES_CLASS_IN) != ARES_SUCCESS ||
@@ -423,8 +424,7 @@ static void case_escape(vh_rng_t *rng)
     st = ares_dns_write(r2, &W, &wl);
     vh_count("escape_text_to_wire");
     if (st != ARES_SUCCESS) {
-      vh_violation(strlen(x) > 255 && !use_srv ? "diff:escape:write-rejects:text256"
-                                                  : "diff:escape:write-rejects",
+      vh_violation("diff:escape:write-rejects",
                    "valid presentation name (%zu characters, %zu octets on the wire) refused by "
                    "ares_dns_write as %s: status %d; name '%.300s' labels %s",
                    strlen(x), refdns_name_wirelen(&N), as_owner ? "owner name" : use_srv ? "SRV target" : "CNAME target",
@@ -540,6 +540,7 @@ static void case_rt_parsed(vh_rng_t *rng)
   ctx.judge_dup    = flags == 0; /* ares_dns_record_duplicate re-parses with flags 0 */
   ctx.judge_rcode  = 1;
   ctx.tcp_variants = 2;
+  ctx.uncontrolled_placement = 1;
   nopt             = rt_count_opt(rec, &elsewhere);
   if (nopt > 1 || elsewhere) {
     /* only an OPT RR in the additional section takes part in rcode assembly on output
@@ -547,9 +548,9 @@ static void case_rt_parsed(vh_rng_t *rng)
     ctx.judge_rcode = 0;
     vh_count("rt_parsed_opt_irregular");
   }
-  if (rt_has_long_text(rec)) {
-    ctx.hazard = "longesc";
-    vh_count("rt_hazard_longesc");
+  ctx.hazard = rt_hazard_tag(rt_has_long_text(rec), NULL);
+  if (ctx.hazard) {
+    vh_count(ctx.hazard[0] == 'e' ? "rt_hazard_escdot" : "rt_hazard_name_over_255");
   }
   th = rec_typehash(rec, &nrr);
   rt_check(&ctx, rec, rng);
@@ -583,10 +584,10 @@ static void case_rt_built(vh_rng_t *rng)
   ctx.judge_dup    = 1;
   ctx.judge_rcode  = 1;
   ctx.tcp_variants = 2;
-  ctx.hazard       = info.hazard;
-  if (rt_has_long_text(rec)) {
-    ctx.hazard = "longesc";
-    vh_count("rt_hazard_longesc");
+  ctx.uncontrolled_placement = 1;
+  ctx.hazard       = rt_hazard_tag(rt_has_long_text(rec), info.hazard);
+  if (ctx.hazard && ctx.hazard != info.hazard) {
+    vh_count(ctx.hazard[0] == 'e' ? "rt_hazard_escdot" : "rt_hazard_name_over_255");
   }
   rt_check(&ctx, rec, rng);
   rt_fingerprint(&ctx, info.typehash, info.nrr);
@@ -635,10 +636,7 @@ static void case_rt_big(vh_rng_t *rng, uint64_t idx, int late, int huge)
   ctx.judge_dup    = 1;
   ctx.judge_rcode  = 1;
   ctx.tcp_variants = 1;
-  ctx.hazard       = info.hazard;
-  if (rt_has_long_text(rec)) {
-    ctx.hazard = "longesc";
-  }
+  ctx.hazard       = rt_hazard_tag(rt_has_long_text(rec), info.hazard);
   rt_check(&ctx, rec, rng);
   if (ctx.wrote) {
     vh_count(ctx.wlen == target ? "rt_big_exact_size" : "rt_big_other_size");
@@ -659,7 +657,7 @@ static void case_rt_big(vh_rng_t *rng, uint64_t idx, int late, int huge)
 #include <signal.h>
 static void on_alarm(int sig)
 {
-  static const char msg[] = "codec: Assertion `case finished within its 60 s budget (hang)' failed.\n";
+  static const char msg[] = "codec: Assertion `case finished within its 20 s budget (hang)' failed.\n";
   (void)sig;
   if (write(2, msg, sizeof(msg) - 1) < 0) {
     _exit(99);
@@ -681,7 +679,7 @@ int main(int argc, char **argv)
     vh_rng_seed(&rng, vh_case_seed(a.seed, a.profile, i));
     vh_case_begin(i);
     vh_count("cases");
-    alarm(60);
+    alarm(20);
     if (!strcmp(a.profile, "gen")) {
       case_gen(&rng);
     } else if (!strcmp(a.profile, "diff")) {
